@@ -293,10 +293,45 @@ def validate(ctx, traces):
         t = traces[len(traces) // 2]
         ctx.sample({"recorded_trace": {"cfg": {k: t["cfg"][k] for k in ("kind", "prof", "ant", "users")}, "calls": t["cfg"]["ops"][:3],
                                        "observed": t["ev"][:3]}}, limit=6)
+    return [t for i, t in enumerate(traces) if (i + 1) not in bad]
+
+
+def negative_control(ctx, conforming):
+    """liveness of the binding: ONE logged value of ONE conforming recorded trace is corrupted (the generator position
+    after a transmission, +1 - a value the trace specification computes from the whole history, not a length) and the
+    shortened trace is validated by the same Trace_Tdl.tla in a separate small TLC run, which must reject it"""
+    pick = None
+    for t in conforming:
+        for j, o in enumerate(t["cfg"]["ops"][:4]):
+            if o["k"] in ("T", "F") and not t["ev"][j]["raised"]:
+                pick = (t, j)
+                break
+        if pick:
+            break
+    if pick is None:
+        raise tlc.TlcError("no conforming recorded trace with a transmission for the negative control")
+    t, j = pick
+    probe = json.loads(json.dumps({"cfg": t["cfg"], "ev": t["ev"][:j + 1]}))
+    probe["cfg"]["ops"] = probe["cfg"]["ops"][:j + 1]
+    probe["ev"][j]["pos"] += 1
+    fd, path = tempfile.mkstemp(prefix="c03-probe-", suffix=".json", dir=tlc.WORK if os.path.isdir(tlc.WORK) else None)
+    with os.fdopen(fd, "w") as f:
+        json.dump([_tlc_view(probe)], f)
+    try:
+        cfg, defs = _cfg()
+        r = tlc.run(TRACE_MODULE, cfg, defs=defs, env={"TRACE_FILE": path}, continue_=True, workers=1, heap="1g")
+    finally:
+        os.unlink(path)
+    hit = [m for m in r.emitted if int(m["tid"]) == 1 and int(m["ev"]) == j + 1 and m["field"] == "pos"]
+    if r.violated != "Conforms" or not hit:
+        raise tlc.TlcError("trace validation did not report a corrupted generator position (binding not live)")
+    ctx.account(r, TRACE_MODULE, "negative control", expect_violation="Conforms")
+    ctx.notes["trace_negative_control"] = (f"generator position after call {j + 1} ({t['cfg']['ops'][j]['k']}) of recorded trace {t['id']} "
+                                           f"corrupted by +1: rejected (field 'pos')")
 
 
 def run(ctx):
-    validate(ctx, record(ctx))
+    negative_control(ctx, validate(ctx, record(ctx)))
 
 
 def replay(ctx, c):
